@@ -310,5 +310,7 @@ class Check:
             ],
             'wall_s': round(wall, 2), 'violations': nviol,
         }
-        os.makedirs(os.path.join(VERIF, 'evidence'), exist_ok=True)
-        json.dump(ev, open(os.path.join(VERIF, 'evidence', self.pid + '.json'), 'w'), indent=1)
+        # evidence/ describes /repo itself; a run against another checkout (VERIF_REPO=<seeded worktree>) must not overwrite it
+        evdir = os.path.join(VERIF, 'evidence') if os.path.realpath(pl.REPO) == '/repo' else os.path.join(VERIF, '_work', 'evidence_other_repo')
+        os.makedirs(evdir, exist_ok=True)
+        json.dump(ev, open(os.path.join(evdir, self.pid + '.json'), 'w'), indent=1)
